@@ -18,6 +18,10 @@ package main
 //        reduced mod q_i, at the BOUNDARY magnitudes |x|*scale in {2^52, 2^53-1, 2^53+1, 2^62, 2^63-1, 2^63, 2^63+1, 2^64-1,
 //        2^64, 2^64+1, 2^65, 2^100} (float64 path: the representable neighbours), both signs, levels 0 and max, scales
 //        2^20 2^30 2^45; the same magnitudes also go through Encode (enccoef / encslot lines, real and imaginary parts)
+//   ckks decodecoef <P> <scale> <c>       -> mantissa,exponent of the arbitrary-precision Decode of a plaintext coefficient c at
+//        NON-power-of-two scales (q_i, q_i*q_j, 3*2^k, 2^90/q_i as left by a rescale), coefficient domain ([]*big.Float /
+//        []*bignum.Complex receivers, pre-allocated at 200 bits or nil) and slot domain (one slot), levels 0 and max:
+//        the correctly rounded quotient by the scale itself
 //   ckks bitrev <bits> <i>                                    -> utils.BitReverse64
 //   ckks roundprec <num> <den> <logprec>                      -> DecodePublic(one slot) * 2^logprec
 // Probes:
@@ -34,6 +38,7 @@ package main
 //   encode_length_check      all four input types x both precision paths x sparse slot counts: len = slots accepted,
 //                            len < slots zero-padded, len = slots+1 / MaxSlots / MaxSlots+1 refused with an error
 //   encode_boundary_roundtrip  Decode(Encode(v)) for the boundary magnitudes that fit Q_level (key ckks-encode-boundary-magnitude)
+//   decode_scale_division    arbitrary-precision Decode at non-power-of-two scales: relative error <= 2^-(P-3) against c/scale
 //   errors_not_panics
 
 import (
@@ -796,6 +801,128 @@ func (e *c07cEnv) tieBoundary(c *Ctx) {
 	}
 }
 
+// tieDecodeScale: arbitrary-precision Decode divides by the scale itself (correctly rounded at the receiver's precision).
+func (e *c07cEnv) tieDecodeScale(c *Ctx) {
+	q := e.params.Q()
+	q0 := rlwe.NewScale(q[0])
+	q1 := rlwe.NewScale(q[len(q)-1])
+	scales := []rlwe.Scale{
+		q1, q0.Mul(q1), rlwe.NewScale(new(big.Float).SetPrec(128).SetMantExp(big.NewFloat(3), 60)),
+		rlwe.NewScale(math.Exp2(90)).Div(q1),                // as left by a rescale
+		rlwe.NewScale(math.Exp2(45)).Mul(q1).Div(q0),        // after a rescale by another prime
+		rlwe.NewScale(math.Exp2(40)),                        // control: power of two
+	}
+	for _, scale := range scales {
+		for _, level := range []int{0, e.params.MaxLevel()} {
+			r := e.params.RingQ().AtLevel(level)
+			qs := e.params.Q()[:level+1]
+			for rep := 0; rep < c.Scale(2, 8); rep++ {
+				n := 6
+				cs := make([]int64, n)
+				pt := ckks.NewPlaintext(e.params, level)
+				pt.Scale = scale
+				pt.IsBatched = false
+				pt.IsNTT = false
+				for i := range cs {
+					cs[i] = int64(c.rng.U64()>>(64-uint(20+c.rng.Intn(25)))) + 1
+					if c.rng.Intn(2) == 0 {
+						cs[i] = -cs[i]
+					}
+					for j, qj := range qs {
+						if cs[i] >= 0 {
+							pt.Value.Coeffs[j][i] = uint64(cs[i]) % qj
+						} else {
+							pt.Value.Coeffs[j][i] = qj - uint64(-cs[i])%qj
+						}
+					}
+				}
+				_ = r
+				emit := func(P uint, i int, v *big.Float, res string) {
+					out := res
+					if res == "" {
+						out = c06Dy(v)
+					}
+					c.Emit(fmt.Sprintf("ckks decodecoef %d %s %d", P, c06Dy(&scale.Value), cs[i]), out)
+					c.Count("tie:decodecoef")
+					// relative error against the exact rational c/scale: at most 2^-(P-3)
+					d := res
+					if res == "" {
+						prod := new(big.Float).SetPrec(600).Mul(v, &scale.Value)
+						diff := prod.Sub(prod, new(big.Float).SetInt64(cs[i]))
+						rel, _ := new(big.Float).Quo(diff.Abs(diff), new(big.Float).SetInt64(cs[i]).Abs(new(big.Float).SetInt64(cs[i]))).Float64()
+						d = ""
+						if !(rel <= math.Exp2(-float64(P)+3)) {
+							d = fmt.Sprintf("relative error 2^%d, receiver precision %d", int(math.Ceil(math.Log2(rel))), P)
+						}
+					}
+					c.Probe("decode_scale_division", fmt.Sprintf("%s P=%d scale=%s c=%d level=%d", e.tag, P, c06Dy(&scale.Value), cs[i], level), "C07/ckks-decode-scale-division", d)
+				}
+				// coefficient domain, pre-allocated 200-bit receivers / nil receivers ; []*big.Float / []*bignum.Complex
+				for _, pre := range []bool{true, false} {
+					P := uint(64)
+					if pre {
+						P = 200
+					}
+					bf := make([]*big.Float, n)
+					bc := make([]*bignum.Complex, n)
+					if pre {
+						for i := range bf {
+							bf[i] = new(big.Float).SetPrec(200)
+							bc[i] = &bignum.Complex{new(big.Float).SetPrec(200), new(big.Float).SetPrec(200)}
+						}
+					}
+					res := Try(func() string {
+						if err := e.ecdBig.Decode(pt, bf); err != nil {
+							return "err"
+						}
+						return ""
+					})
+					for i := range bf {
+						emit(P, i, bf[i], res)
+					}
+					res = Try(func() string {
+						if err := e.ecdBig.Decode(pt, bc); err != nil {
+							return "err"
+						}
+						return ""
+					})
+					for i := range bc {
+						var v *big.Float
+						if res == "" {
+							v = bc[i][0]
+						}
+						emit(P, i, v, res)
+					}
+				}
+				// slot domain, one slot (standard ring): value = c_0/scale + i c_{N/2}/scale at the encoder's precision
+				if !e.ci {
+					pt2 := ckks.NewPlaintext(e.params, level)
+					pt2.Scale = scale
+					pt2.LogDimensions.Cols = 0
+					pt2.IsNTT = false
+					for j := range qs {
+						pt2.Value.Coeffs[j][0] = pt.Value.Coeffs[j][0]
+						pt2.Value.Coeffs[j][e.N/2] = pt.Value.Coeffs[j][1]
+					}
+					v := make([]*bignum.Complex, 1)
+					res := Try(func() string {
+						if err := e.ecdBig.Decode(pt2, v); err != nil {
+							return "err"
+						}
+						return ""
+					})
+					var re, im *big.Float
+					if res == "" {
+						re, im = v[0][0], v[0][1]
+					}
+					emit(e.precB, 0, re, res)
+					emit(e.precB, 1, im, res)
+				}
+			}
+		}
+	}
+}
+
 // ---------- probes ----------
 
 func (e *c07cEnv) randComplex(c *Ctx, n int, logMag int) []complex128 {
@@ -1391,6 +1518,7 @@ func genC07CKKS(c *Ctx) {
 		e.tiePoly(c)
 		e.tieCoeffs(c)
 		e.tieBoundary(c)
+		e.tieDecodeScale(c)
 		e.probeHistory(c)
 		e.tieRoundPrec(c)
 		e.tieRoundPrecBig(c)
